@@ -19,6 +19,7 @@ structure Info where
   late      : Bool := false   -- shutdown took longer than the configured shutdown timeout allows for "prompt"
   panicked  : Bool := false
   liveRg    : Nat := 0        -- runnable goroutines still alive at the end
+  gateLate  : Nat := 0        -- ms by which a gate was passed after its startup timeout had elapsed (0: never)
   deriving Repr
 
 def Info.n (c : Info) : Nat := c.caps.length
@@ -87,6 +88,9 @@ def holdsC03 (c : Info) (t : List Ev) : Bool :=
         if r != .nil && !gatePassed && !interference
         then (List.range c.n).all fun j => j ≤ g || !(t.contains (.runInvoke j)) else true
       | _, _ => true)
+  -- (c') readiness not reached within the startup timeout ends the gate: no gate is passed by a poll that comes
+  --      more than a scheduling delay after the timeout
+  && c.gateLate ≤ 50
 
 /-! ## C04 -/
 def gatePending (t : List Ev) : Bool :=
